@@ -2,7 +2,7 @@
 # confirm_seed.sh <Cxx> <A|B>: apply the sub-agent's patch to a scratch copy of /repo HEAD,
 # build, run the unedited suite; then run the calc-script demo (if any) on both trees.
 set -u
-id="$1"; x="$2"; src=/tmp/seed/out/$id
+id="$1"; x="$2"; src=${SEEDDIR:-/tmp/seed/out}/$id
 export GOFLAGS=-mod=mod GOPROXY=off GOSUMDB=off GOTOOLCHAIN=local GOWORK=off
 d=$(mktemp -d /tmp/confirm.XXXXXX); trap 'rm -rf "$d"' EXIT
 mkdir -p $d/base $d/mut
